@@ -163,9 +163,12 @@ def diff(pre, post):
 def effect_paths(events):
     """Set of relpaths named by mutating effects (src, dst, path)."""
     ps = set()
+    refused = {e['n'] for e in events if e.get('k') == 'effect-failed'}
     for e in events:
         if 'n' not in e and 'fault' not in e:
             continue
+        if e.get('k') == 'effect-failed' or (e.get('n') in refused and 'fault' not in e):
+            continue      # the operating system refused the operation by itself: nothing was touched
         for k in ('path', 'src', 'dst'):
             if e.get(k):
                 ps.add(e[k])
